@@ -115,8 +115,12 @@ def coef_vector(spec, nc):
         c = np.array([(j + 1) * (-1.0) ** j for j in range(nc)])
     elif kind == 'tern':
         c = np.array(spec[1], dtype=np.float64)
+    elif kind == 'arange':
+        c = np.arange(nc, dtype=np.float64)
     else:
         raise ValueError(kind)
+    if isinstance(spec[-1], str) and spec[-1] in ('int64', 'int32', 'float32'):
+        c = c.astype(spec[-1])          # the coefficient vector may be handed over in any numeric dtype (values are small integers)
     return c
 
 
@@ -249,12 +253,15 @@ def knot_trigger(t, k, pts_bad):
 
 
 @_bsp.guarded(lambda bad: (bad, np.zeros(1)))
-def check_value(s, t, k, coef, pts, order, tables=None):
-    """value() at pts[order] against the reference; -> list of (sig, msg)."""
+def check_value(s, t, k, coef, pts, order, tables=None, lay=None):
+    """value() at pts[order] against the reference; -> list of (sig, msg).  lay: memory layout / dtype of the point array."""
     bad = []
     nc = len(t) - k
     a, b = t[k - 1], t[nc]
-    xe = pts[order]
+    if lay == 'float32':
+        pts = pts.astype(np.float32).astype(np.float64)      # the reference sees the values that are actually passed
+        tables = None
+    xe = pts[order] if lay is None else _bsp.layout(pts[order], lay)
     Br, Bl = tables if tables is not None else ref_tables(t, k, pts)
     vr, vl = Br.dot(coef)[order], Bl.dot(coef)[order]
     lo, hi = np.minimum(vr, vl), np.maximum(vr, vl)
@@ -271,7 +278,8 @@ def check_value(s, t, k, coef, pts, order, tables=None):
     inside = (xe >= a) & (xe <= b)
     if not np.array_equal(msk.astype(bool), inside):
         bad.append(('value:mask!=inside-breakpoint-range', 'x %s mask %s range [%r,%r]' % (xe.tolist(), msk.tolist(), a, b)))
-    tol = 1e-11 * max(1.0, float(np.max(np.abs(coef))))
+    tol = (1e-5 if lay == 'float32' else 1e-11) * max(1.0, float(np.max(np.abs(coef))))
+    variant = ('' if coef.dtype == np.float64 else ':coeff-' + str(coef.dtype)) + ('' if lay is None else ':x-' + lay)
     y64 = y.astype(np.float64)
     ok = (y64 >= lo - tol) & (y64 <= hi + tol)
     w = inside & ~ok
@@ -286,7 +294,7 @@ def check_value(s, t, k, coef, pts, order, tables=None):
                 cls = 'misordered'
         if trig.startswith('at-repeated-knot'):
             cls = 'mismatch'        # one root cause (zero-length interval chosen), whatever the symptom
-        bad.append(('value:%s:%s' % (cls, trig), 'x=%r got %r expected [%r, %r]; knots %s' % (xe[i0], y64[i0], lo[i0], hi[i0], t.tolist())))
+        bad.append(('value:%s:%s%s' % (cls, trig, variant), 'x=%r got %r expected [%r, %r]; knots %s' % (xe[i0], y64[i0], lo[i0], hi[i0], t.tolist())))
     if not np.array_equal(xe, keep):
         bad.append(('value:input-modified', ''))
     return bad, lo
@@ -399,6 +407,23 @@ def run_task(task):
                     acc.case(_bsp.ckey(cv), nt, ('ok:value:' + cs[0] + ':' + od[0]) if not badv else 'bad:' + badv[0][0], sample=cv)
                     for sig, msg in badv:
                         acc.violation(sig, cv, msg)
+            # ---- coefficient vectors of other numeric dtypes (values must not be truncated) and point arrays in other layouts
+            variants = [(['unit', j, 'int64'], None) for j in range(nc)] + [(['unit', j, 'int32'], None) for j in (0, nc - 1)]
+            variants += [(['alt', 'int64'], None), (['alt', 'int32'], None), (['arange', 'int64'], None), (['ones', 'int32'], None),
+                         (['alt', 'float32'], None), (['unit', 0, 'float32'], None)]
+            variants += [(['alt'], lay) for lay in _bsp.LAYOUTS[1:]] + [(['arange', 'int64'], 'strided')]
+            for cs, lay in variants:
+                coef = coef_vector(cs, nc)
+                for od in ([['inter']] if not T else [['inter'], ['rev']]):
+                    cv = dict(base, layer='V', coef=cs, pts='knots', ord=od)
+                    if lay:
+                        cv['layout'] = lay
+                    order = apply_order(od, len(pts))
+                    badv, lo = check_value(s, t, k, coef, pts, order, tables, lay)
+                    acc.case(_bsp.ckey(cv), bool(np.ptp(lo) > 0),
+                             ('ok:value:%s:%s' % (cs[-1] if isinstance(cs[-1], str) and cs[-1] != cs[0] else 'f8', lay or 'plain')) if not badv else 'bad:' + badv[0][0], sample=None)
+                    for sig, msg in badv:
+                        acc.violation(sig, cv, msg)
             # ---- values on the data abscissae, permuted
             ptsd = point_set('data', t, k, x)
             tabd = ref_tables(t, k, ptsd)
@@ -431,5 +456,5 @@ def replay(case):
     pts = point_set(case['pts'], t, k, x)
     coef = coef_vector(case['coef'], len(t) - k)
     order = apply_order(case['ord'], len(pts))
-    badv, _lo = check_value(s, t, k, coef, pts, order)
+    badv, _lo = check_value(s, t, k, coef, pts, order, None, case.get('layout'))
     return badv
